@@ -1,34 +1,10 @@
 (* C15 - bbox: per frame, person and component the smallest axis-aligned box of the observed points; missing
    exactly when the component has no observed point. *)
 From Coq Require Import Reals ZArith List Bool Lia Lra.
-Require Import Result Num C15_Spatial C15_Real C15_Lemmas C15_Flip C15_Matmul.
+Require Import Result Num C15_Spatial C15_Real C15_Lemmas C15_Flip C15_Matmul C15_Obs.
 Import ListNotations.
 Local Open Scope R_scope.
 
-
-(* ---------- observed values of a component ---------- *)
-Lemma wf_nth_error D (p : rpoint) d : wf_point D p -> (d < D)%nat -> exists x, nth_error (pcs p) d = Some (x, missing p).
-Proof. intros Hwf Hd. destruct (nth_error (pcs p) d) as [[x m]|] eqn:E.
-  - exists x. f_equal. f_equal. apply nth_error_In in E. exact (masks_uniform_mask D p (x, m) Hwf E).
-  - apply nth_error_None in E. pose proof (proj1 Hwf) as Hl. rops. lia. Qed.
-Lemma obs_axis_nil_iff D (cpts : list rpoint) d : Forall (wf_point D) cpts -> (d < D)%nat ->
-  (obs_axis R_ops d cpts = [] <-> all_missing cpts = true).
-Proof. intros Hwf Hd. unfold obs_axis, all_missing. induction Hwf as [|p cpts Hp Hc IH]; cbn [flat_map forallb]; [tauto|].
-  destruct (wf_nth_error D p d Hp Hd) as [x Hx]. rops. rewrite Hx. destruct (missing p); cbn [app andb].
-  - exact IH.
-  - split; discriminate. Qed.
-Lemma is_none_lmin D (cpts : list rpoint) d : Forall (wf_point D) cpts -> (d < D)%nat ->
-  is_none (lmin R_ops (obs_axis R_ops d cpts)) = all_missing cpts.
-Proof. intros Hwf Hd. pose proof (obs_axis_nil_iff D cpts d Hwf Hd) as H.
-  destruct (lmin R_ops (obs_axis R_ops d cpts)) as [m|] eqn:E; cbn [is_none].
-  - destruct (all_missing cpts); [|reflexivity]. rewrite (proj2 H eq_refl) in E. discriminate.
-  - symmetry. apply H. now apply lmin_none. Qed.
-Lemma is_none_lmax D (cpts : list rpoint) d : Forall (wf_point D) cpts -> (d < D)%nat ->
-  is_none (lmax R_ops (obs_axis R_ops d cpts)) = all_missing cpts.
-Proof. intros Hwf Hd. pose proof (obs_axis_nil_iff D cpts d Hwf Hd) as H.
-  destruct (lmax R_ops (obs_axis R_ops d cpts)) as [m|] eqn:E; cbn [is_none].
-  - destruct (all_missing cpts); [|reflexivity]. rewrite (proj2 H eq_refl) in E. discriminate.
-  - symmetry. apply H. now apply lmax_none. Qed.
 
 (* ---------- the two points of one box ---------- *)
 Definition box_point (D : nat) (v : nat -> R) (m : bool) : rpoint :=
